@@ -357,6 +357,19 @@ def fdwra_with_trace(obj, n, maxit, dfn, dmc, rng_):
     return ret, dbg, near
 
 
+def as_user_containers(oid, freq, rows):
+    """the same numbers in the containers users hand over: nested lists (oid % 5 == 1), integer arrays when every value is
+    integral (oid % 5 == 3), single-precision arrays when every value is exactly representable (oid % 5 == 4)"""
+    k = oid % 5
+    if k == 1:
+        return freq.tolist(), rows.tolist()
+    if k == 3 and np.all(rows == np.round(rows)) and np.all(np.abs(rows) < 2 ** 30):
+        return freq, rows.astype(np.int64)
+    if k == 4 and np.array_equal(rows.astype(np.float32).astype(float), rows) and np.array_equal(freq.astype(np.float32).astype(float), freq):
+        return freq.astype(np.float32), rows.astype(np.float32)
+    return freq, rows
+
+
 class Mirror:
     """a real hvsrpy object together with the request lines that rebuild it in the driver"""
 
@@ -372,7 +385,7 @@ class Mirror:
         m = Mirror(oid)
         m.kind = "T"
         m.freq, m.rows = np.array(freq, dtype=float), np.array(rows, dtype=float)
-        m.obj = hvsrpy.HvsrTraditional(m.freq, m.rows)
+        m.obj = hvsrpy.HvsrTraditional(*as_user_containers(oid, m.freq, m.rows))
         m.lines.append(f"hv.new {oid} {fvec(m.freq)} {fmat(m.rows)}")
         return m
 
@@ -384,7 +397,7 @@ class Mirror:
         m.freq = np.array(freq, dtype=float)
         m.rows_per_az = [np.array(r, dtype=float) for r in rows_per_az]
         m.azimuths = [float(a) for a in azimuths]
-        hs = [hvsrpy.HvsrTraditional(m.freq, r) for r in m.rows_per_az]
+        hs = [hvsrpy.HvsrTraditional(*as_user_containers(oid + k, m.freq, r)) for k, r in enumerate(m.rows_per_az)]
         m.obj = hvsrpy.HvsrAzimuthal(hs, m.azimuths)
         ids = []
         for k, r in enumerate(m.rows_per_az):
